@@ -68,6 +68,23 @@ def build(desc):
         return Stub(desc)
     if k == 'written_file':
         return desc            # resolved after the other arguments are built
+    if k == 'excel_table':
+        import tempfile
+        import pandas as pd
+        rows = []
+        if desc.get('comment_row', True):
+            rows.append(['comment'] * len(desc['headers']))
+        for r in desc['rows']:
+            rows.append([None if c is None else build(c) for c in r])
+        df = pd.DataFrame(rows)
+        fd, path = tempfile.mkstemp(prefix='pvc_sheet_', suffix='.xlsx')
+        os.close(fd)
+        with pd.ExcelWriter(path) as w:
+            # header written as a data row so that duplicate headers survive
+            pd.DataFrame([desc['headers']] + rows).to_excel(
+                w, index=False, header=False)
+        _TMPFILES.append(path)
+        return path
     raise ValueError('desc kind %r' % k)
 
 
@@ -300,6 +317,17 @@ def eval_clause(text, env, pre_env):
     return bool(r)
 
 
+_SHEETS = {}
+
+
+def _cell(path, i, j):
+    import pandas as pd
+    if path not in _SHEETS:
+        _SHEETS[path] = pd.read_excel(path, header=None)
+    v = _SHEETS[path].iloc[i + 2, j]
+    return v.strip() if isinstance(v, str) else v
+
+
 def clause_env(spec_root):
     import numpy as np
     if spec_root not in sys.path:
@@ -308,7 +336,7 @@ def clause_env(spec_root):
     import pmutt.constants as const
     from scipy.integrate import quad as _quad
     import pmutt as pm
-    env = {'spec': spec, 'const': const, 'pm': pm,
+    env = {'spec': spec, 'const': const, 'pm': pm, 'cell': _cell,
            'integral': lambda f, a, b: _quad(f, a, b)[0], 'np': np, 'log': np.log, 'exp': np.exp,
            'sqrt': np.sqrt, 'pi': math.pi,
            'implies': lambda a, b: (not a) or b, 'eq': approx_eq,
